@@ -3,7 +3,7 @@
 Bounded-exhaustive enumeration: (a) every schedule element of the grammar x every total client count (by pairing it with a
 plain task of m clients before/after/alone), plus every schedule of length <= 3 over a reduced element alphabet, through the
 real Allocator, against the reference invariants of sched_common; (b) every host list x client count through the real
-calculate_worker_assignments.  Schedules left behind by the real task filters are covered by C11 with the same invariants.
+calculate_worker_assignments; (c) every parallel element with every subset of sub-tasks excluded by the real task filter.
 """
 import itertools
 
@@ -17,7 +17,8 @@ RULE = (
     "elements: Task(clients 1..3) and Parallel(1..3 sub-tasks with clients 1..3, cap in {None,1..4}, completed-by in {none, any, "
     "each sub-task}); schedules: each element alone / preceded / followed by a task with m in 1..6 clients (an element's allocation "
     "depends on the rest of the schedule only through the maximum client count), all schedules of length <= 3 over a reduced "
-    "alphabet (elements left empty by task filters are whatever the real filters leave: checked in C11 with these invariants); layouts: every list of 1..3 (thorough 4) hosts with cores from "
+    "alphabet; every parallel element of the grammar between two tasks with every non-empty subset of its sub-tasks excluded by the real "
+    "task filter (elements left empty by filters are whatever the real filters leave; more filter forms in C11 with these invariants); layouts: every list of 1..3 (thorough 4) hosts with cores from "
     "the core alphabet x every client count. non-trivial = schedule with a parallel element or layout with > 1 worker; distinct = spec"
 )
 ASSUMPTIONS = [
@@ -85,6 +86,59 @@ def check_schedule(spec, res):
         )
 
 
+def filtered_cases(tier):
+    """schedules as the real task filters leave them: every parallel element of the grammar between two plain tasks, with every
+    non-empty subset of its sub-tasks excluded by name (incl. all of them: the element must disappear, not stay behind empty)"""
+    for el in elements(tier):
+        if el[0] != "P":
+            continue
+        n = len(el[2])
+        for k in range(1, n + 1):
+            for drop in itertools.combinations(range(n), k):
+                yield ([("T", 2), el, ("T", 1)], list(drop))
+
+
+def check_filtered(spec, drop, res):
+    from esrally import config
+    from esrally.track import loader, track
+
+    schedule = sc.build_schedule(spec)
+    ch = track.Challenge("c", default=True, schedule=schedule)
+    trk = track.Track(name="t", challenges=[ch])
+    cfg = config.Config()
+    cfg.add(config.Scope.application, "track", "exclude.tasks", [f"e1_{j}" for j in drop])
+    v = None
+    try:
+        loader.TaskFilterTrackProcessor(cfg).on_after_load_track(trk)
+    except Exception as e:  # noqa
+        v = ("filter-raises", f"{type(e).__name__}: {e}")
+    if v is None:
+        left = [[t.name for t in el] for el in ch.schedule]
+        want = [["e0"], [f"e1_{j}" for j in range(len(spec[1][2])) if j not in drop], ["e2"]]
+        want = [w for w in want if w]
+        if left != want:
+            v = ("filter-result", f"filters left {left}, expected {want}")
+        else:
+            v = sc.check_allocator(ch.schedule)
+            if v is None:
+                w = sc.check_progress_walk(ch.schedule)
+                if w == "skipped":
+                    res.count("progress_walk_oracle_skipped")
+                elif w:
+                    v = w
+    res.case(
+        case_repr={"schedule": spec, "excluded_sub_tasks": drop} if res.sample_now(1009) else None,
+        nontrivial_key=("f", repr(spec), tuple(drop)),
+        outcome_key=("f", v[0] if v else "ok", len(ch.schedule)),
+    )
+    if v:
+        res.violation(
+            f"allocator:{v[0]}:after-filter" + (":element-emptied" if len(drop) == len(spec[1][2]) else ""),
+            f"schedule {spec} with sub-tasks {drop} of the parallel element excluded: {v[1]}",
+            {"kind": "filtered", "spec": spec, "drop": drop},
+        )
+
+
 def check_layout(cores, clients, res):
     from esrally.driver import driver
 
@@ -139,6 +193,8 @@ def _shard(arg):
     for it in items:
         if kind == "s":
             check_schedule(it, res)
+        elif kind == "f":
+            check_filtered(it[0], it[1], res)
         else:
             check_layout(it[0], it[1], res)
     return res
@@ -154,10 +210,13 @@ def run(tier, seed):
         for cores in itertools.product(core_alpha, repeat=n):
             for clients in range(1, maxclients + 1):
                 layouts.append((cores, clients))
+    filtered = list(filtered_cases(tier))
     jobs = [("s", ch) for ch in par.chunks(specs, par.NPROC * 2)] + [("l", ch) for ch in par.chunks(layouts, par.NPROC)]
+    jobs += [("f", ch) for ch in par.chunks(filtered, par.NPROC)]
     res = par.pmap(_shard, jobs, seed=seed)
     res.extra["schedules"] = len(specs)
     res.extra["layouts"] = len(layouts)
+    res.extra["filtered_schedules"] = len(filtered)
     res.states = res.evaluations
     res.transitions = res.evaluations
     return res
@@ -165,7 +224,10 @@ def run(tier, seed):
 
 def replay(data):
     res = Result()
-    if data["kind"] == "schedule":
+    if data["kind"] == "filtered":
+        spec = [tuple(e) if e[0] == "T" else (e[0], e[1], list(e[2]), e[3]) for e in data["spec"]]
+        check_filtered(spec, list(data["drop"]), res)
+    elif data["kind"] == "schedule":
         spec = [tuple(e) if e[0] == "T" else (e[0], e[1], list(e[2]), e[3]) for e in data["spec"]]
         check_schedule(spec, res)
     else:
